@@ -20,6 +20,7 @@ import (
 
 	"golang.org/x/net/bpf"
 
+	"github.com/DataDog/datadog-traceroute/common"
 	"github.com/DataDog/datadog-traceroute/packets"
 
 	"vt/pkt"
@@ -374,7 +375,6 @@ func (s *sink) writeLocked(buf []byte, ap netip.AddrPort) (error, bool) {
 		return os.ErrClosed, false
 	}
 	if cl, ok := w.fault("write", s.run); ok {
-		_ = cl
 		eager := false
 		for _, f := range w.script.Faults {
 			if f.Op == "write" && f.With != nil && len(w.flows) > 0 {
@@ -386,6 +386,9 @@ func (s *sink) writeLocked(buf []byte, ap netip.AddrPort) (error, bool) {
 					}
 				}
 			}
+		}
+		if cl == "typed" { // the cause carries the type the drivers use for "no packet yet": a failed write is still a failed write
+			return &common.ReceiveProbeNoPktError{Err: SentinelForRun("write", s.run)}, eager
 		}
 		return SentinelForRun("write", s.run), eager
 	}
@@ -793,23 +796,22 @@ func (s *source) Read(buf []byte) (int, error) {
 			w.mu.Unlock()
 			return n, nil
 		}
+		// the "deadline passed, nothing readable" verdict and its log line are taken under the lock that guards the queue:
+		// the log order is the order in which the handle's state changed (an arrival logged before a Deadline line was
+		// really not readable... never: it would have been read above)
 		dl := s.deadline
+		if !dl.IsZero() && time.Until(dl) <= 0 {
+			w.log("Deadline", "h", s.id, "run", s.run)
+			w.mu.Unlock()
+			return 0, errDeadline
+		}
 		w.mu.Unlock()
-		var tc <-chan time.Time
 		if !dl.IsZero() {
-			d := time.Until(dl)
-			if d <= 0 {
-				w.LogEvent("Deadline", "h", s.id, "run", s.run)
-				return 0, errDeadline
-			}
-			t := time.NewTimer(d)
-			tc = t.C
+			t := time.NewTimer(time.Until(dl))
 			select {
 			case <-s.notify:
 				t.Stop()
-			case <-tc:
-				w.LogEvent("Deadline", "h", s.id, "run", s.run)
-				return 0, errDeadline
+			case <-t.C:
 			}
 		} else {
 			<-s.notify
